@@ -39,5 +39,8 @@ func (e ArrayItemTupleExpr) Eval(ctx context.Context, local Scope) (_ Value, err
 	if err != nil {
 		return nil, WrapContextErr(err, e, local)
 	}
+	if _, is := at.(Number); !is {
+		return nil, WrapContextErr(fmt.Errorf("@ of an array item must be a number, not %s", ValueTypeAsString(at)), e, local)
+	}
 	return NewTuple(NewAttr("@", at), NewAttr(ArrayItemAttr, value)), nil
 }
